@@ -74,6 +74,20 @@ func runC18(in *Sx) *Sx {
 		c.SetCookie(http.Cookie{Name: "ck", Value: cv, Path: "/"})
 		c.SetCookie(http.Cookie{Name: "last", Value: "l st", Path: "/"})
 	})
+	// a raw query string exactly as a client may send it (pieces that do not parse are dropped by net/url, the first
+	// well-formed value of the name counts)
+	var rawOut *Sx
+	if r := in.Field("raw"); r != nil {
+		name := r.Args()[1].Bytes()
+		f.Get("/rawq", func(c flamego.Context) {
+			defer func() {
+				if r := recover(); r != nil {
+					panicked = true
+				}
+			}()
+			rawOut = T("raw", X(c.Query(name, dstr...)), I64(c.QueryInt64(name, dint64...)), X(c.QueryTrim(name, dstr...)))
+		})
+	}
 	var got string
 	f.Get("/read", func(c flamego.Context) {
 		got = c.Cookie("ck")
@@ -100,6 +114,12 @@ func runC18(in *Sx) *Sx {
 	// the router matches on URL.Path (already decoded); a "/" inside the value would split the segment
 	w := &wireWriter{hdr: http.Header{}}
 	f.ServeHTTP(w, &http.Request{Method: "GET", URL: u, Header: http.Header{}, Proto: "HTTP/1.1"})
+	if r := in.Field("raw"); r != nil && !panicked {
+		f.ServeHTTP(&wireWriter{hdr: http.Header{}}, &http.Request{Method: "GET", URL: &url.URL{Path: "/rawq", RawQuery: r.Args()[0].Bytes()}, Header: http.Header{}, Proto: "HTTP/1.1"})
+		if rawOut != nil {
+			out = append(out, rawOut)
+		}
+	}
 	if panicked {
 		return T("obs", T("panic"))
 	}
@@ -174,6 +194,32 @@ func genC18(rng *rand.Rand, n int, tier string, emit func(*Sx)) {
 		}
 		if rng.Intn(5) == 0 {
 			in.List = append(in.List, T("junk", I(rng.Intn(8))))
+		}
+		if rng.Intn(2) == 0 { // a raw query string of well-formed and malformed pieces
+			keys := []string{"q", "a", "x y", "", "q", "k&k", "é"}
+			var pieces []string
+			for k := rng.Intn(5); k > 0; k-- {
+				switch rng.Intn(10) {
+				case 0, 1, 2, 3:
+					b := make([]byte, rng.Intn(4))
+					rng.Read(b)
+					v := []string{"", "7", " 12 ", "v&w", "a=b", "x;y", "100%", "+", string(b)}[rng.Intn(9)]
+					pieces = append(pieces, url.QueryEscape(keys[rng.Intn(len(keys))])+"="+url.QueryEscape(v))
+				case 4:
+					pieces = append(pieces, []string{"q=%zz", "%=1", "q=%4", "a=1;q=2", ";", "q;"}[rng.Intn(6)])
+				case 5:
+					pieces = append(pieces, []string{"", "q", "=v", "q=1=2", "q==", "a", "+=+"}[rng.Intn(7)])
+				case 6:
+					b := make([]byte, 1+rng.Intn(5))
+					rng.Read(b)
+					pieces = append(pieces, string(b))
+				case 7:
+					pieces = append(pieces, "q="+[]string{"%41", "a+b", "%2B", "%26%3D", "%00", "%C3%A9"}[rng.Intn(6)])
+				default:
+					pieces = append(pieces, keys[rng.Intn(len(keys))]+"="+[]string{"1", "", "zz", "-5"}[rng.Intn(4)])
+				}
+			}
+			in.List = append(in.List, T("raw", X(strings.Join(pieces, "&")), X(keys[rng.Intn(len(keys))])))
 		}
 		emit(in)
 	}
